@@ -106,6 +106,24 @@ Theorem same_behaviour : forall (B : Type) (behaviour : view -> B) (idx : option
 Proof. exact same_behaviour_lemma. Qed.
 Print Assumptions same_behaviour.
 
+(* hence, under EVERY registry, behaviour that reads only what lies outside the re-synchronised blocks (the greedy action
+   of DQN reads the online network, never the target) is the same for parent and copy *)
+Theorem same_behaviour_outside : forall (B : Type)
+  (behaviour : (N * list (name * N) * list (name * Q) * registry * list (name * Q)) * list (key * list cval) -> B)
+  (idx : option N) (s : store) (a : agent),
+  Forall (fun l => l < s_next s) (agent_locs a) ->
+  behaviour (view_outside (fst (clone_agent idx s a)) (snd (clone_agent idx s a))) = behaviour (view_outside s a).
+Proof. exact same_behaviour_outside_lemma. Qed.
+Print Assumptions same_behaviour_outside.
+
+(* INDEPENDENT 4 — tournament selection: every member of the returned population (the new generation and the elite
+   object) owns only cells that did not exist before the tournament, whatever the draws: clones of one parent are
+   disjoint from the parent, from the replaced generation and (by sep_preserved) from each other *)
+Theorem select_fresh : forall (e : nat) (ws : list nat) (el : bool) (w : world) (a : agent) (l : loc),
+  In a (w_pop (select e ws el w)) -> In l (agent_locs a) -> s_next (w_store w) <= l.
+Proof. exact select_fresh_lemma. Qed.
+Print Assumptions select_fresh.
+
 (* REFUTED — the pinned behaviour (optimizer.load_state_dict of the parent's state dict without a deep
    copy) breaks separation: parent and copy share the optimizer state tensors *)
 Theorem clone_aliasing_refuted :
